@@ -30,6 +30,7 @@ type Frame struct {
 	cur      *ssa.BasicBlock
 	argVals  []Val
 	mapIter  map[ssa.Value]*mapIterState
+	cellOf   map[*ssa.Alloc]int
 }
 
 type loopData struct {
@@ -38,6 +39,119 @@ type loopData struct {
 	backs   []*ssa.BasicBlock
 	ordinal int // 1-based source ordinal, 0 if unknown
 	phis    []*ssa.Phi
+}
+
+func (c *cellRef) extend(s cellStep) *cellRef {
+	n := &cellRef{key: c.key, typ: c.typ, path: append(append([]cellStep{}, c.path...), s)}
+	return n
+}
+
+func (fr *Frame) cellGet(c *cellRef) Val {
+	root, ok := fr.st.cells[c.key]
+	if !ok {
+		unsup("local variable cell not available on this path")
+	}
+	if len(c.path) == 0 {
+		return root
+	}
+	t := root.T
+	for _, s := range c.path {
+		if s.idx != nil {
+			t = fr.arrayGet(t, s.cont, *s.idx, s.idxT)
+		} else {
+			t = fr.vc.structInfo(s.cont).get(t, s.field)
+		}
+	}
+	return Val{T: t}
+}
+
+func (fr *Frame) cellSet(c *cellRef, v Val) {
+	if len(c.path) == 0 {
+		if v.Tup == nil && v.Clo == nil && v.Cell == nil {
+			v.T = fr.vc.name("cell", v.T)
+		}
+		fr.st.cells[c.key] = v
+		return
+	}
+	root, ok := fr.st.cells[c.key]
+	if !ok {
+		unsup("local variable cell not available on this path")
+	}
+	var upd func(t Term, path []cellStep) Term
+	upd = func(t Term, path []cellStep) Term {
+		if len(path) == 0 {
+			return v.T
+		}
+		s := path[0]
+		if s.idx != nil {
+			inner := fr.arrayGet(t, s.cont, *s.idx, s.idxT)
+			return fr.arraySet(t, s.cont, *s.idx, s.idxT, upd(inner, path[1:]))
+		}
+		si := fr.vc.structInfo(s.cont)
+		var fs []Term
+		for k := range si.Fields {
+			if k == s.field {
+				fs = append(fs, upd(si.get(t, k), path[1:]))
+			} else {
+				fs = append(fs, si.get(t, k))
+			}
+		}
+		return si.mk(fs)
+	}
+	fr.st.cells[c.key] = Val{T: fr.vc.name("cell", upd(root.T, c.path))}
+}
+
+// isLocalAlloc reports whether the address of the allocation never escapes: it is only used for
+// loads, stores and field/element selection.
+func isLocalAlloc(a *ssa.Alloc) bool {
+	var ok func(v ssa.Value) bool
+	ok = func(v ssa.Value) bool {
+		refs := v.Referrers()
+		if refs == nil {
+			return false
+		}
+		for _, r := range *refs {
+			switch u := r.(type) {
+			case *ssa.DebugRef:
+			case *ssa.Store:
+				if u.Addr != v || u.Val == v {
+					return false
+				}
+			case *ssa.UnOp:
+				if u.Op != token.MUL {
+					return false
+				}
+			case *ssa.FieldAddr:
+				if !ok(u) {
+					return false
+				}
+			case *ssa.IndexAddr:
+				if u.X != v || !ok(u) {
+					return false
+				}
+			default:
+				return false
+			}
+		}
+		return true
+	}
+	return ok(a)
+}
+
+// materialize turns the address of a local cell into a heap pointer holding a copy of its value
+// (sound for read-only uses, i.e. in specifications).
+func (fr *Frame) materialize(v Val, t types.Type) Val {
+	if v.Cell == nil {
+		return v
+	}
+	if fr.vc.spec == 0 {
+		unsup("address of a local variable escapes")
+	}
+	cur := fr.cellGet(v.Cell)
+	et := fr.vc.rt(t).Underlying().(*types.Pointer).Elem()
+	p := fr.vc.newAlloc(fr.st, false)
+	fr.vc.storeAt(fr.st, p, et, cur.T)
+	return Val{T: p}
 }
 
 type mapIterState struct {
@@ -256,7 +370,7 @@ func (vc *VC) execFunction(fn *ssa.Function, args []Val, bindings []Val, st *Sta
 	vc.callStack = append(vc.callStack, fn)
 	defer func() { vc.callStack = vc.callStack[:len(vc.callStack)-1] }()
 
-	fr := &Frame{vc: vc, fn: fn, vals: map[ssa.Value]Val{}, old: old, edges: map[*ssa.BasicBlock][]edgeOut{}, bindings: bindings, isTop: top, argVals: args, mapIter: map[ssa.Value]*mapIterState{}}
+	fr := &Frame{vc: vc, fn: fn, vals: map[ssa.Value]Val{}, old: old, edges: map[*ssa.BasicBlock][]edgeOut{}, bindings: bindings, isTop: top, argVals: args, mapIter: map[ssa.Value]*mapIterState{}, cellOf: map[*ssa.Alloc]int{}}
 	if len(args) != len(fn.Params) {
 		unsup("arity mismatch calling %s: %d args for %d params", fn.Name(), len(args), len(fn.Params))
 	}
@@ -732,6 +846,11 @@ func (fr *Frame) enterLoop(ld *loopData, entryPhi map[*ssa.Phi]Val) {
 			vc.havocHeap(fr.st, h)
 		}
 	}
+	for _, key := range fr.cellsStoredIn(ld) {
+		if cur, ok := fr.st.cells[key]; ok && cur.Tup == nil {
+			fr.st.cells[key] = Val{T: vc.freshConst("cell", cur.T.Sort)}
+		}
+	}
 	hav := map[*ssa.Phi]Val{}
 	for _, phi := range ld.phis {
 		v := vc.freshVal(phi.Name(), phi.Type())
@@ -789,6 +908,40 @@ func (fr *Frame) autoRangeInv(ld *loopData, hav map[*ssa.Phi]Val) {
 			}
 		}
 	}
+}
+
+// cellsStoredIn lists the local cells (allocated before the loop) that the loop body stores to.
+func (fr *Frame) cellsStoredIn(ld *loopData) []int {
+	seen := map[int]bool{}
+	var out []int
+	for b := range ld.blocks {
+		for _, ins := range b.Instrs {
+			st, ok := ins.(*ssa.Store)
+			if !ok {
+				continue
+			}
+			v := st.Addr
+			for {
+				switch u := v.(type) {
+				case *ssa.FieldAddr:
+					v = u.X
+					continue
+				case *ssa.IndexAddr:
+					v = u.X
+					continue
+				}
+				break
+			}
+			if a, ok := v.(*ssa.Alloc); ok {
+				if k, ok := fr.cellOf[a]; ok && !ld.blocks[a.Block()] && !seen[k] {
+					seen[k] = true
+					out = append(out, k)
+				}
+			}
+		}
+	}
+	sort.Ints(out)
+	return out
 }
 
 func (fr *Frame) backEdge(ld *loopData, from *ssa.BasicBlock, cond Term) {
@@ -863,14 +1016,12 @@ func (fr *Frame) execInstr(ins ssa.Instruction) {
 		return
 	case *ssa.Alloc:
 		et := t.Type().Underlying().(*types.Pointer).Elem()
-		if vc.spec > 0 {
-			switch vc.rt(et).Underlying().(type) {
-			case *types.Struct, *types.Array:
-			default:
-				z := Val{T: vc.zeroOf(et)}
-				fr.vals[t] = Val{T: tNil, Cell: &z}
-				return
-			}
+		if vc.spec > 0 || isLocalAlloc(t) {
+			vc.ncell++
+			fr.st.cells[vc.ncell] = Val{T: vc.zeroOf(et)}
+			fr.vals[t] = Val{T: tNil, Cell: &cellRef{key: vc.ncell, typ: et}}
+			fr.cellOf[t] = vc.ncell
+			return
 		}
 		p := vc.newAlloc(fr.st, false)
 		// memory is zero-initialised
@@ -881,6 +1032,11 @@ func (fr *Frame) execInstr(ins ssa.Instruction) {
 	case *ssa.UnOp:
 		fr.unop(t)
 	case *ssa.FieldAddr:
+		if xv := fr.val(t.X); xv.Cell != nil {
+			st := vc.rt(t.X.Type()).Underlying().(*types.Pointer).Elem()
+			fr.vals[t] = Val{T: tNil, Cell: xv.Cell.extend(cellStep{field: t.Field, cont: st})}
+			return
+		}
 		x := fr.term(t.X)
 		fr.checkNonNil(t.X, x, t.Pos())
 		fr.vals[t] = Val{T: fieldPtr(x, t.Field)}
@@ -893,7 +1049,7 @@ func (fr *Frame) execInstr(ins ssa.Instruction) {
 		fr.index(t)
 	case *ssa.Store:
 		if a := fr.val(t.Addr); a.Cell != nil {
-			*a.Cell = fr.val(t.Val)
+			fr.cellSet(a.Cell, fr.val(t.Val))
 			return
 		}
 		fr.store(t.Addr, fr.val(t.Val), t.Pos())
@@ -1161,7 +1317,7 @@ func (fr *Frame) unop(t *ssa.UnOp) {
 	switch t.Op {
 	case token.MUL: // load
 		if a := fr.val(t.X); a.Cell != nil {
-			fr.vals[t] = *a.Cell
+			fr.vals[t] = fr.cellGet(a.Cell)
 			return
 		}
 		fr.vals[t] = Val{T: vc.name(t.Name(), fr.load(t.X, t.Pos()))}
@@ -1275,6 +1431,16 @@ func (fr *Frame) arraySet(arr Term, at types.Type, idx Term, it types.Type, v Te
 func (fr *Frame) indexAddr(t *ssa.IndexAddr) {
 	vc := fr.vc
 	xt := vc.rt(t.X.Type())
+	if xv := fr.val(t.X); xv.Cell != nil {
+		if pt, ok := xt.Underlying().(*types.Pointer); ok {
+			arr := pt.Elem().Underlying().(*types.Array)
+			i := fr.idx64(fr.term(t.Index), t.Index.Type())
+			fr.check("bounds", indexDesc(t.X, t.Index), app(SBool, "bvult", i, bvLit(uint64(arr.Len()), 64)), t.Pos())
+			it := fr.term(t.Index)
+			fr.vals[t] = Val{T: tNil, Cell: xv.Cell.extend(cellStep{idx: &it, idxT: t.Index.Type(), cont: pt.Elem()})}
+			return
+		}
+	}
 	i := fr.idx64(fr.term(t.Index), t.Index.Type())
 	switch u := xt.Underlying().(type) {
 	case *types.Slice:
